@@ -35,6 +35,7 @@ func main() {
 	valstatus := fs.Bool("valstatus", false, "validator jail/unjail environment events")
 	stories := fs.Int("stories", 50, "percent of histories with a scripted dispute story")
 	replicas := fs.Int("replicas", 8, "replicas per history (C01)")
+	probe := fs.Bool("probe", false, "probe aggregate getters after every block")
 	only := fs.Int("only", 0, "run only this history (1-based)")
 	mintinit := fs.Bool("mintinit", false, "governance starts minting in the bootstrap block")
 	_ = fs.Parse(os.Args[2:])
@@ -54,7 +55,7 @@ func main() {
 	case "hist":
 		err = h.RunHist(*trace, *stats, h.HistDriverOpts{N: *n, Seed: *seed, Proj: *proj, Only: *only,
 			Opts: h.HistOpts{Blocks: *blocks, MaxOpsPerBlk: *maxops, Boundary: *boundary, GovOps: *gov, NoBadValues: *nobad, TimeJumps: *jumps,
-				DisputeBias: *dbias, StakingBias: *sbias, BridgeBias: *bbias, MintInitEarly: *mintinit, ValStatus: *valstatus, Stories: *stories}})
+				DisputeBias: *dbias, StakingBias: *sbias, BridgeBias: *bbias, MintInitEarly: *mintinit, ValStatus: *valstatus, Stories: *stories, Probe: *probe}})
 	default:
 		err = fmt.Errorf("unknown driver %q", os.Args[1])
 	}
